@@ -359,6 +359,17 @@ fn step(rng: &mut Rng, sink: &mut Sink, w: &mut World, focus: &str) {
             let data = if kind == 1 { rng.bytes(dl) } else { vec![] };
             let inner = match rng.below(16) {
                 0 => sol_enc("transfer", &[word_nat(7), tid.clone(), b"0xsrc".to_vec(), dest.clone(), word_nat(amount), data.clone()]), // unknown message type
+                1 => {
+                    // message-type word beyond every integer width the code converts through
+                    let mut w = vec![0u8; 32];
+                    match rng.below(4) {
+                        0 => w[24] = 0x80,                 // 2^63
+                        1 => w[23] = 1,                    // 2^64
+                        2 => w[0] = 0x80,                  // 2^255
+                        _ => { w[23] = 1; w[31] = 1 }      // 2^64 + 1
+                    }
+                    sol_enc("transfer", &[w, tid.clone(), b"0xsrc".to_vec(), dest.clone(), word_nat(amount), data.clone()])
+                }
                 _ => transfer_payload(&tid, b"0xsrc", &dest, amount, &data),
             };
             let (chain, src, payload) = inbound_source(rng, &inner);
